@@ -1,8 +1,8 @@
 (* Extraction of the model entry points for the volume path of the correspondence checks.
    Only ExtrOcamlBasic is used: Z, N, positive, nat, ascii and string stay as extracted inductives.
    Compiled from build/ocaml (the .ml files are written to the current directory). *)
-From Bexpr Require Import Base Strconv Ast Unicode Peg Typing Actions GoGrammar PegGrammar Univ Eval Api Dump Quote ModelApi.
+From Bexpr Require Import Base Strconv Ast Unicode Peg Typing Actions GoGrammar PegGrammar Univ Eval Api Dump Quote Json JsonOps JsonEval ModelApi.
 Require Import ExtrOcamlBasic.
 From Coq Require Import List String ZArith.
-Extraction "model.ml" model_parse model_parse_peg model_eval model_create model_evaluate model_execute model_dump
+Extraction "model.ml" model_parse model_parse_peg model_eval model_create model_evaluate model_execute model_dump model_jeval
   go_quote unquote parse_int parse_uint parse_float parse_bool ptr_unescape utf8_cells valid_utf8 selector_string z2b b2z Z.abs Z.div_eucl Z.add Z.mul Z.opp.
